@@ -14,6 +14,11 @@ func ReadRequest(r io.Reader) (apiVersion int16, correlationID int32, clientID s
 		return
 	}
 
+	if size < 0 {
+		err = fmt.Errorf("invalid request size: %d", size)
+		return
+	}
+
 	d.remain = int(size)
 	apiKey := ApiKey(d.readInt16())
 	apiVersion = d.readInt16()
